@@ -232,6 +232,10 @@ func (g *sgen) schema(depth int) map[string]interface{} {
 				req = append(req, n)
 			}
 		}
+		if len(req) >= 2 && g.p(12) {
+			// a name listed twice, with another name after the repetition (the decoder accepts it; the verdict is that of the set)
+			req = append(append(append([]interface{}{}, req[:2]...), req[0]), req[1:]...)
+		}
 		s["required"] = req
 	}
 	if want("object", 30) && depth > 0 {
